@@ -555,7 +555,7 @@ func init() {
 			}
 		}
 		// one hostile name at one call position, D <= 4
-		host := []string{"- x", "é日本", "a b", "#h", "x.b"}
+		host := []string{"- x", "é日本", "a b", "#h", "x.b", "100%d", "p ├── q", "<&>"}
 		for D := 1; D <= 4 && !c.Expired(); D++ {
 			for hp := 0; hp < D; hp++ {
 				gen(D, func(i int) []string {
